@@ -11,6 +11,7 @@
 //   - writers queue on one harness mutex: BEGIN takes it until COMMIT/ROLLBACK, an autocommit
 //     write takes it for the call (a write that returns rows, INSERT .. RETURNING, until the
 //     rows are closed).
+//
 // The mutex is only ever held by a goroutine that owns its connection and needs nothing else,
 // so it cannot be part of a deadlock.
 package c07
